@@ -6,7 +6,7 @@ READY = True
 META = {
     "technique": "Lean 4 proof (model of loader::safe_join built from the segment rules extracted from the source; PathBuf::push and Path::components with the PLATFORM as a parameter — separator set, main separator, drive prefixes: Unix and Windows instances, push's replace-on-absolute/prefix, keep-only-the-prefix-on-rooted and bare-drive branches; lexical normalisation; abstract directory tree; path_loader as a function of (configured base, file system at load time); candidate-list loaders; the name-keyed template store over arbitrary file-system histories) + exhaustive correspondence of the real safe_join with the Unix instance over the quantifier's segment alphabet + the Windows instance against CPython's ntpath + canary oracle on the real path_loader over a scratch tree through 13 entry points, Environment::templates, AutoReloader, a loader-lifecycle axis (incl. the kind of the base: directory, regular file, symlink, missing) + a syscall-level oracle (strace) over every entry point; session 4: the ENGINE'S ROUTES in the model (MJ/Model/PathRoutes.lean: Environment::get_template, State::get_template + join_template_path with an ARBITRARY path-join callback, include / import / from-import / extends, lists of include choices, over the name-keyed store) with every_loader_call_passes_through_safe_join, the routes tied row by row to regenerated call tables with ARGUMENT TEXT (C17_NAME_FLOW, C17_STMT_ROUTES, C17_WATCH_ARGS), the property's own statement C17_full over histories of link-free WORLDS (directory tree, cwd, file contents) proved for the model (C17_model) and C17_main with the two gaps as named hypotheses; a routes correspondence stream (recorder around the real path_loader vs Engine.loaderCalls) and an escapes-at-every-depth name axis (2..41 segments)",
     "category": "proof",
-    "text": "Kernel-checked theorems: (1) what is pushed is what was checked (checked_segments_are_pushed_components): on every platform whose separators are the split character or rejected by the extracted filter rules — proved for the Unix and the Windows separator sets — whenever safe_join answers a path, the filter looked at every piece of name.split('/'), the arguments of PathBuf::push are exactly those pieces, and the components of the result (the result split on EVERY separator of the platform) are the base's components followed by the non-empty pieces, one plain name each; drive prefix, root and literal text of the base are kept. Unix: no hypothesis left (unix_checked_are_pushed, safe_join_confined_unix; the Unix instance is the model compared with the real code, unix_instance_is_checked_model). Windows: holds for names without a drive-prefixed segment (safe_join_confined_windows_partial); a segment `X:…` passes the filter and push replaces the base (windows_drive_segment_replaces_base, C17_windows_counterexample — recorded as a known finding, Windows only). (2) Unix detail as before: the path has the base as literal prefix, components = base's ++ name's non-empty segments, none of which is '.', '..', hidden or contains '/' or '\\'; lexical normalisation keeps the base as prefix; on every directory tree without symlinks the path resolves to the base directory or beneath it; any '.', '..', hidden or backslash segment yields None; push's absolute-argument branch is unreachable. (3) The loader keeps the configured base verbatim (loader_base_is_configured); every path it hands to the file system and every content it returns is confined to the configured base in the file system of the load (loader_reads_confined, loader_found_confined); any loader that tries candidate NAMES through safe_join (suffix/index/alias fallbacks done right) stays confined (candidate_loader_found_confined, candidate_loader_reads_confined; path_loader is the single-candidate instance); with the name-keyed store in front, for EVERY history of file systems every answer and everything Environment::templates lists is what some snapshot held at safe_join(configured base, name) (loader_history_confined, …_after_clear). Ties: the segment rules are regenerated from loader.rs; safe_join's loop SHAPE is regenerated and checked (one split on the extracted separator, one filter whose atoms all look at the loop variable, one push of that same variable, nothing else: safe_join_loop_shape); path_loader's base binding, its fs:: calls, every file-system-vocabulary call and the mentions of path/base/name are regenerated (loader_model_matches_source); every function of minijinja, minijinja-contrib and minijinja-autoreload that mentions the file system or builds a path is regenerated and must be one of the modelled ones (path_producers_as_modelled); the engine's template-fetching call sites are regenerated (entry_sites_covered). Correspondence: real safe_join vs model byte for byte on every name over the segment alphabet for 13 spellings of the base plus targeted, disguised, shaped and noise names; real path_loader vs (model, disk answer at the joined path, store) through get_template, include, import, from-import, extends, include lists (name first / name after a missing choice), ignore-missing include, the documented join callback, State::get_template from a host function and from a host filter, includes in macros and in loader-backed templates, Environment::templates and AutoReloader, on a static tree and on 12 lifecycle scenarios x 10 spellings of the base; Lean Windows model vs CPython ntpath.join. Oracles: every returned content carries the marker of a file whose canonical path is beneath the canonical configured base (never a canary; nothing at all while the configured base is not a directory); under strace, between the sentinel probes bracketing a request — through EVERY one of the 13 routes in rotation plus the bare loader closure — the only path handed to the kernel is the one safe_join designates (opened once; twice for a twice-listed missing name) and nothing outside the base is opened. Names: the alphabet product; every canary by absolute, relative, rooted, climbing spelling; DISGUISED escaping spellings (each escaping kernel whose target canary exists x pads/NUL/zero-width/format characters before, after, inside the dot-dot; percent-, double-percent-, entity- and look-alike-encoded dots and separators incl. NFKC-equivalents; tokens a clean-up may cut off: drive, scheme, tilde; prefixes and suffixes) so that a check/use mismatch of any such family yields a canary; SHAPED spellings (long by repeated separators / by a/../ round trips, 6…260 leading empty segments, 10 segments deep, beyond NAME_MAX and PATH_MAX); Windows device names, drive, UNC, verbatim and device-namespace prefixes, alternate data streams as data; decorated namesakes of every canary. SESSION 4: (4) routes: the model Engine (store + loader + optional callback) serves Req.one entry name parent over the six entries and Req.choices (include lists: a missing choice is skipped, another failure ends the statement); every_loader_call_passes_through_safe_join: for EVERY engine state, callback (any function of the two names), request and file system, every path handed to the file system is safe_join(configured base, n) for a name n that request asked the store for, and is Confined; engine_history_confined: over any history of (file system, request) every source answered is what some snapshot held at such a path. (5) C17_full reads like the property: for every base, callback and history of (World, request) — a World is a directory tree without links, root, cwd and file contents; fs::read_to_string is path resolution by walking components — every source the engine answers is the content of a file IN OR BENEATH the directory the configured base designated in one of the worlds; proved for the model (C17_model). C17_main: for ANY implementation (black box: state, init, serve) that AnswersAsModel (gap 1: tied by the regenerated tables, validated by the streams) on histories where the OsWalksTree (gap 2: validated by canary and syscall oracles) the same holds; both hypotheses shown non-vacuous (the model satisfies gap 1, an implementation serving the unfiltered name does not). Ties added: name_flow_as_modelled (every call by which a name travels towards the loader — get_template, join_template_path, templates.get, the loader closure, the callback — with receiver, ARGUMENT TEXT and the binding of a variable argument is a row of a modelled route; each route ends in templates.get(name); a route has a join call exactly when Entry.joins; Include/Import/FromImport compile to Include -> perform_include, Extends to LoadBlocks -> load_blocks, called nowhere else), path_producers_classified (role and reason for every path-touching function of minijinja, -contrib, -autoreload: safe_join builds, path_loader is the ONLY reader, watch_path/unwatch_path hand the HOST's path to the notifier and nowhere else: C17_WATCH_ARGS). Streams added: rt — a FRESH environment per request whose loader is the real path_loader wrapped in a recorder, all 13 forms: the sequence of names the loader closure is called with and the answer class vs Engine.loaderCalls / Engine.serve of the Lean driver (incl. the documented callback docJoin in Lean), oracle: returned content is a file beneath the base (a further name asked of the loader is a correspondence disagreement, not a failing input); deep — names of 2..41 segments with the escaping piece at EVERY position (empties around one `..`; up to four real directories matched by extra `..`; an absolute canary path behind 0..41 pieces) through every form, the strace oracle and the routes stream, so a filter that looks at a window of the pieces only (first K, last K, all but K) yields a canary whatever K is.",
+    "text": "Kernel-checked theorems: (1) what is pushed is what was checked (checked_segments_are_pushed_components): on every platform whose separators are the split character or rejected by the extracted filter rules — proved for the Unix and the Windows separator sets — whenever safe_join answers a path, the filter looked at every piece of name.split('/'), the arguments of PathBuf::push are exactly those pieces, and the components of the result (the result split on EVERY separator of the platform) are the base's components followed by the non-empty pieces, one plain name each; drive prefix, root and literal text of the base are kept. Unix: no hypothesis left (unix_checked_are_pushed, safe_join_confined_unix; the Unix instance is the model compared with the real code, unix_instance_is_checked_model). Windows: holds for names without a drive-prefixed segment (safe_join_confined_windows_partial); a segment `X:…` passes the filter and push replaces the base (windows_drive_segment_replaces_base, C17_windows_counterexample — recorded as a known finding, Windows only). (2) Unix detail as before: the path has the base as literal prefix, components = base's ++ name's non-empty segments, none of which is '.', '..', hidden or contains '/' or '\\'; lexical normalisation keeps the base as prefix; on every directory tree without symlinks the path resolves to the base directory or beneath it; any '.', '..', hidden or backslash segment yields None; push's absolute-argument branch is unreachable. (3) The loader keeps the configured base verbatim (loader_base_is_configured); every path it hands to the file system and every content it returns is confined to the configured base in the file system of the load (loader_reads_confined, loader_found_confined); any loader that tries candidate NAMES through safe_join (suffix/index/alias fallbacks done right) stays confined (candidate_loader_found_confined, candidate_loader_reads_confined; path_loader is the single-candidate instance); with the name-keyed store in front, for EVERY history of file systems every answer and everything Environment::templates lists is what some snapshot held at safe_join(configured base, name) (loader_history_confined, …_after_clear). Ties: the segment rules are regenerated from loader.rs; safe_join's loop SHAPE is regenerated and checked (one split on the extracted separator, one filter whose atoms all look at the loop variable, one push of that same variable, nothing else: safe_join_loop_shape); path_loader's base binding, its fs:: calls, every file-system-vocabulary call and the mentions of path/base/name are regenerated (loader_model_matches_source); every function of minijinja, minijinja-contrib and minijinja-autoreload that mentions the file system or builds a path is regenerated and must be one of the modelled ones (path_producers_as_modelled); the engine's template-fetching call sites are regenerated (entry_sites_covered). Correspondence: real safe_join vs model byte for byte on every name over the segment alphabet for 13 spellings of the base plus targeted, disguised, shaped and noise names; real path_loader vs (model, disk answer at the joined path, store) through get_template, include, import, from-import, extends, include lists (name first / name after a missing choice), ignore-missing include, the documented join callback, State::get_template from a host function and from a host filter, includes in macros and in loader-backed templates, Environment::templates and AutoReloader, on a static tree and on 12 lifecycle scenarios x 10 spellings of the base; Lean Windows model vs CPython ntpath.join. Oracles: every returned content carries the marker of a file whose canonical path is beneath the canonical configured base (never a canary; nothing at all while the configured base is not a directory); under strace, between the sentinel probes bracketing a request — through EVERY one of the 13 routes in rotation plus the bare loader closure — the only path handed to the kernel is the one safe_join designates (opened once; twice for a twice-listed missing name) and nothing outside the base is opened. Names: the alphabet product; every canary by absolute, relative, rooted, climbing spelling; DISGUISED escaping spellings (each escaping kernel whose target canary exists x pads/NUL/zero-width/format characters before, after, inside the dot-dot; percent-, double-percent-, entity- and look-alike-encoded dots and separators incl. NFKC-equivalents; tokens a clean-up may cut off: drive, scheme, tilde; prefixes and suffixes) so that a check/use mismatch of any such family yields a canary; SHAPED spellings (long by repeated separators / by a/../ round trips, 6…260 leading empty segments, 10 segments deep, beyond NAME_MAX and PATH_MAX); Windows device names, drive, UNC, verbatim and device-namespace prefixes, alternate data streams as data; decorated namesakes of every canary. SESSION 4: (4) routes: the model Engine (store + loader + optional callback) serves Req.one entry name parent over the six entries and Req.choices (include lists: a missing choice is skipped, another failure ends the statement); every_loader_call_passes_through_safe_join: for EVERY engine state, callback (any function of the two names), request and file system, every path handed to the file system is safe_join(configured base, n) for a name n that request asked the store for, and is Confined; engine_history_confined: over any history of (file system, request) every source answered is what some snapshot held at such a path. (5) C17_full reads like the property: for every base, callback and history of (World, request) — a World is a directory tree without links, root, cwd and file contents; fs::read_to_string is path resolution by walking components — every source the engine answers is the content of a file IN OR BENEATH the directory the configured base designated in one of the worlds; proved for the model (C17_model). C17_main: for ANY implementation (black box: state, init, serve) that AnswersAsModel (gap 1: tied by the regenerated tables, validated by the streams) on histories where the OsWalksTree (gap 2: validated by canary and syscall oracles) the same holds; both hypotheses shown non-vacuous (the model satisfies gap 1, an implementation serving the unfiltered name does not). Ties added: name_flow_as_modelled (every call by which a name travels towards the loader — get_template, join_template_path, templates.get, the loader closure, the callback — with receiver, ARGUMENT TEXT and the binding of a variable argument is a row of a modelled route; each route ends in templates.get(name); a route has a join call exactly when Entry.joins; Include/Import/FromImport compile to Include -> perform_include, Extends to LoadBlocks -> load_blocks, called nowhere else), path_producers_classified (role and reason for every path-touching function of minijinja, -contrib, -autoreload: safe_join builds, path_loader is the ONLY reader, watch_path/unwatch_path hand the HOST's path to the notifier and nowhere else: C17_WATCH_ARGS). store_get_as_modelled (LoaderStore::get: looked up, memoised and handed to the loader closure under the SAME name; what the loader returned, nothing else, is compiled and stored: C17_STORE_GET). Streams added: rt — a FRESH environment per request whose loader is the real path_loader wrapped in a recorder, all 13 forms: the sequence of names the loader closure is called with and the answer class vs Engine.loaderCalls / Engine.serve of the Lean driver (incl. the documented callback docJoin in Lean), oracle: returned content is a file beneath the base (a further name asked of the loader is a correspondence disagreement, not a failing input); deep — names of 2..41 segments with the escaping piece at EVERY position (empties around one `..`; up to four real directories matched by extra `..`; an absolute canary path behind 0..41 pieces) through every form, the strace oracle and the routes stream, so a filter that looks at a window of the pieces only (first K, last K, all but K) yields a canary whatever K is.",
     "design_ref": "DESIGN.md §3 C17",
     "level_note": "MOVED FROM VALIDATED TO PROVED in session 4 (the session-3 worker was interrupted, nothing of it survived): State::get_template / join_template_path / the path-join callback / perform_include over choices / load_blocks / Environment::get_template were a three-line abstraction (joinTemplatePath) validated by the oracle streams; they are now the Engine model with theorems for every request, callback and history (every_loader_call_passes_through_safe_join, engine_history_confined) and a row-by-row regenerated tie INCLUDING ARGUMENTS (name_flow_as_modelled; before: entry_sites_covered listed call sites only), executed against the real engine by the rt stream. The step from Confined (components) to the property's words (content of a file beneath the base directory) is now a theorem over worlds (world_read_confined, C17_model : C17_full) instead of prose; what remains unproved about the CODE is stated as the two hypotheses of C17_main (AnswersAsModel, OsWalksTree). watch_path/unwatch_path: classified with a reason and tied (path_producers_classified, C17_WATCH_ARGS). STILL ONLY VALIDATED / TRUSTED: Lean kernel; hand transcription of std's PathBuf::_push / Path::components / parse_drive into MJ/Model/Path.lean (Unix, validated byte-for-byte against the real functions, also outside the region safe_join reaches) and MJ/Model/PathPlat.lean (platform-generic; its Unix instance is PROVED equal to the validated one, its Windows instance is validated against CPython's ntpath.join on the region where the two libraries define the same function — not against a Windows build of std, which cannot run here; the verbatim-prefix branch of push is not modelled, a Windows base is assumed not to be verbatim); the loop of safe_join is a transcription whose rules AND shape are extracted; the step from 'components are plain names' to 'the OS resolves beneath the base' is proved on an abstract tree without symlinks (the property excludes symlinks) and validated on a real tree and at syscall level; Loader.load / Env.get are three-line transcriptions of path_loader's closure and LoaderStore::get, tied by the extracted shape table and validated on every stream; Engine.fetch / includeList / storeName are transcriptions of State::get_template, perform_include, load_blocks and join_template_path (AnswersAsModel is a HYPOTHESIS of C17_main, not a theorem about Rust: tied by name_flow_as_modelled + entry_sites_covered, validated by rt/ld/lc/tr); what rendering a fetched template does afterwards (its own includes) is a further request of the history, not modelled as recursion; Environment::add_template / template_from_str sources never reach the loader and are outside the model. The real code is exercised on Linux only. minijinja-cli has its own loader (no safe_join, reads arbitrary paths by design) and minijinja-embed reads the disk at build time only: both are outside this property.",
 }
@@ -708,7 +708,7 @@ def run(r):
     r.assumptions = ["the real code runs with Unix path semantics; Windows is covered by the model only (validated against CPython's ntpath, verbatim bases excluded); symbolic links inside the base are out of scope per the statement",
                      "the syscall oracle needs strace (skipped and recorded in the evidence when it is not installed)",
                      "alphabet names longer than 5 segments behave as the model predicts (proved for the model for every name and base; exercised up to 41 segments by the deep axis, 260 by the shaped axis)"]
-    r.regen_tables(needed=["C17_SAFE_JOIN_RULES", "C17_PATH_LOADER_SHAPE", "C17_LOADER_ENTRY_SITES", "C17_SAFE_JOIN_LOOP", "C17_PATH_PRODUCERS", "C17_NAME_FLOW", "C17_STMT_ROUTES", "C17_WATCH_ARGS"])
+    r.regen_tables(needed=["C17_SAFE_JOIN_RULES", "C17_PATH_LOADER_SHAPE", "C17_LOADER_ENTRY_SITES", "C17_SAFE_JOIN_LOOP", "C17_PATH_PRODUCERS", "C17_NAME_FLOW", "C17_STMT_ROUTES", "C17_WATCH_ARGS", "C17_STORE_GET"])
     r.lean_prove("MJ.Props.C17", "MJ/Audit/C17.lean", extra_targets=["drive_c17"])
     exe = r.cargo_build("c17")
     if exe is None:
